@@ -100,6 +100,55 @@ Theorem C19_cleanup : forall sort_rows run_size pk ops,
 Proof. exact Sorter_proofs.cleanup_all_histories. Qed.
 Print Assumptions C19_cleanup.
 
+(** One sorter reused for several tables, as doctor's resolver and ingest.reingestTable do
+    (Reset; SetColumns; PK = ...; AddRow for every row; one output - then the next table,
+    with ANOTHER column count and ANOTHER key, possibly none): whatever the sorter was used
+    for before, the outputs of every use are exactly those of a fresh sorter given that
+    use's table alone.  Nothing of an earlier table's configuration survives Reset. *)
+Theorem C19_reuse_is_fresh : forall sort_rows run_size uses u,
+  snd (uop_run sort_rows run_size u (concat (map use_ops uses))) =
+  concat (map (fun x => snd (uop_run sort_rows run_size new_usorter (use_ops x))) uses).
+Proof. exact Sorter_proofs.reuse_is_fresh. Qed.
+Print Assumptions C19_reuse_is_fresh.
+
+(** ... and a fresh use accepts every row and emits the sorted key-deduplication of its
+    table (blocks, resp. rows): with C19_reuse_is_fresh this holds for every use of every
+    reuse history. *)
+Theorem C19_reuse_blocks : forall ncols sort_rows run_size pk rem rows,
+  sort_ok ncols sort_rows -> wf_pk ncols pk -> wf_rows ncols rows -> cells_in_limit rows ->
+  wf_removed ncols pk rem ->
+  exists bs nch,
+    snd (uop_run sort_rows run_size new_usorter (use_ops (mk_suse ncols pk rows true rem))) =
+      map (fun _ => UOAdd true) rows ++ [UOBlocks nch (Some bs)] /\
+    sorted_dedup_of ncols pk rem rows (concat (map b_rows bs)).
+Proof. exact Sorter_proofs.fresh_use_blocks. Qed.
+Print Assumptions C19_reuse_blocks.
+
+Theorem C19_reuse_rows : forall ncols sort_rows run_size pk rem rows,
+  sort_ok ncols sort_rows -> wf_pk ncols pk -> wf_rows ncols rows -> cells_in_limit rows ->
+  wf_removed ncols pk rem ->
+  exists bs nch,
+    snd (uop_run sort_rows run_size new_usorter (use_ops (mk_suse ncols pk rows false rem))) =
+      map (fun _ => UOAdd true) rows ++ [UORows nch (Some bs)] /\
+    sorted_dedup_of ncols pk rem rows (concat (map r_rows bs)).
+Proof. exact Sorter_proofs.fresh_use_rows. Qed.
+Print Assumptions C19_reuse_rows.
+
+(** Non-vacuity: a key-less 2-column table, then a key-less 3-column table whose rows
+    agree on the first two columns, through one sorter: all three rows of the second
+    table come out, each block carrying the whole first row as its key. *)
+Example C19_reuse_example :
+  let r2 (a b : N) : row := [[a]; [b]] in
+  let r3 (a b c : N) : row := [[a]; [b]; [c]] in
+  let u1 := mk_suse 2 [] [r2 1 2; r2 1 1] true [] in
+  let u2 := mk_suse 3 [] [r3 1 9 8; r3 2 5 5; r3 1 9 7] false [] in
+  snd (uop_run isort_rows 1 new_usorter (use_ops u1 ++ use_ops u2)) =
+  [UOAdd true; UOAdd true;
+   UOBlocks 2 (Some [mk_sblock 0 [r2 1 1; r2 1 2] (r2 1 1)]);
+   UOAdd true; UOAdd true; UOAdd true;
+   UORows 3 (Some [mk_srows 0 [r3 1 9 7; r3 1 9 8; r3 2 5 5]])].
+Proof. vm_compute. reflexivity. Qed.
+
 (** The hypothesis on the in-memory sort is satisfiable: the insertion sort used by
     the extracted model meets it. *)
 Theorem C19_sort_ok_inhabited : forall ncols, sort_ok ncols isort_rows.
